@@ -77,7 +77,7 @@ Fixpoint jones_body (l : link) (states : list (list bool)) : option lpoly :=
 
 (* jones_polynomial *)
 Definition jones_prefactor (np nn : nat) : lpoly :=
-  pmul (pconst (if Nat.even np then 1 else -1)) (qpow (Z.of_nat np - 2 * Z.of_nat nn)).
+  pmul (pconst (if Nat.even nn then 1 else -1)) (qpow (Z.of_nat np - 2 * Z.of_nat nn)).
 Definition jones_model (l : link) : option lpoly :=
   let n := crossing_num l in
   match signed_crossing_nums l with
